@@ -189,13 +189,15 @@ class _Res:
         return [f"{tag}={pick}" for pick, n, tag in self.trace]
 
 
-def run_thunk(model: Model, thunk):
-    """thunk(interp) -> value; explores all paths; returns [Out]."""
+def run_thunk(model: Model, thunk, real_classifier=False):
+    """thunk(interp) -> value; explores all paths; returns [Out].  With real_classifier the type of constructed
+    objects comes from interpreting Pregex.__infer_type itself instead of forking over all tags."""
+    from ..interp import Hooks as _PlainHooks
     outs = []
     stack = [[]]
     while stack:
         decisions = stack.pop()
-        it = Interp(model, PregexHooks(model), decisions, fuel=FUEL)
+        it = Interp(model, _PlainHooks() if real_classifier else PregexHooks(model), decisions, fuel=FUEL * (40 if real_classifier else 1))
         try:
             v = thunk(it)
             res = _Res("return", v, it)
